@@ -322,7 +322,7 @@ def r6(ctx):
         ctx.check(mentions_call(vals[6], r"crc::calc_crc_with_0564$") and mentions_call(vals[6], r"WriteCursor::written_since$"), "format:header-crc", "header CRC = calc_crc_with_0564(written_since(header_start))", bd.where(writes[6][0].idx))
     # length byte
     ll = bd.local_by_name("length")
-    defs = [sym.def_expr(blk, si) for l in ll for blk, si in bd.defs.get(l, [])]
+    defs = [x for l in ll for blk, si in bd.defs.get(l, []) for x in resolve_defs(bd, sym, sym.def_expr(blk, si), depth=3)]
     ok = any(const_value(prog, e) == 5 or mentions_constdef(e, r"MIN_HEADER_LENGTH_VALUE$") for e in defs) and any(mentions_field(e, "app_data") and mentions_constdef(e, r"MIN_HEADER_LENGTH_VALUE$") for e in defs)
     ctx.check(ok, "format:length-values", "length = 5 (header only) or app_data.len() + 5 + 1", bd.where(line=bd.line))
     for g in ctx.gi(bd).all_guards():
@@ -384,7 +384,7 @@ def r7(ctx):
     tx = call_sites(bd, r"ReadCursor::transaction$")
     ctx.check(len(tx) == 1, "discard-mode:transaction", "discard mode parses inside a cursor transaction", bd.where(tx[0].idx) if tx else "")
     for t in tx:
-        ctx.require_guards(bd, t.idx, [("mode != Close", g_rel("Ne", "mode", lambda x: mentions(x, lambda s: s[0] == "agg" and s[2] == "Close")))], "discard-mode:guard", "transaction")
+        ctx.require_guards(bd, t.idx, [("mode != Close", g_not_variant("mode", "Close"))], "discard-mode:guard", "transaction")
     errarm = arm_edges(ctx, bd, g_is(lambda x: mentions_call(x, r"ReadCursor::transaction$"), "Err"))
     if len(errarm) != 1:
         raise AnchorError("parse: Err arm")
